@@ -1,10 +1,12 @@
 // C08 trace recorder for the transposition table.
 //   h_tt hammer <seed> <threads> <entries> <seconds*10> <out>   concurrent stores/probes of catalogue units on few buckets; distinct hits logged
 //   h_tt index  <seed> <out>                                     index records for many table sizes and boundary keys
+//   h_tt life   <seed> <histories> <out>                         call histories of the on-demand tablebase life cycle (spec/TBLife.tla)
 //   h_tt misc   <seed> <out>                                     mate-score ply shift records; tablebase region isolation under hash traffic
 #include "hcommon.hpp"
 #include "transpositionTable.hpp"
 #include "constants.hpp"
+#include "verifhooks.hpp"
 #include <atomic>
 #include <fstream>
 #include <iostream>
@@ -253,6 +255,94 @@ int main(int argc, char** argv) {
             }
         }
         printf("{\"misc_records\":%ld}\n", n);
+        return 0;
+    }
+    if (mode == "life") {
+        // life cycle of the on-demand tablebase inside the hash table (spec/TBLife.tla): random call histories on ONE table object;
+        // after every call the projected state and the answers for a fixed sample of both classes (compared with reference tables
+        // generated in fresh objects) are logged.  An abort is a stop request that arrives at iteration 2 of the generation.
+        int nSeq = atoi(argv[3]);
+        std::ofstream os(argv[4]);
+        os << "{\"e\":\"Meta\",\"check\":\"C08\",\"mode\":\"life\"}\n";
+        static RelaxedShared<S64>* limP = nullptr;
+        static bool wantAbort = false, started = false;
+        verif::tbPhaseHook = [](int phase, int n) { started = true; if (wantAbort && phase == 2 && n >= 2 && limP) *limP = 0; };
+        const char* rootFen[2] = {"8/8/8/3k4/8/3K4/4Q3/8 w - - 0 1", "8/8/8/3k4/8/3K4/4R3/8 b - - 0 1"};
+        const char* clsName[2] = {"KQK", "KRK"};
+        Position root[2] = {TextIO::readFEN(rootFen[0]), TextIO::readFEN(rootFen[1])};
+        Position unsuit = TextIO::readFEN(TextIO::startPosFEN);
+        std::vector<Position> sample[2];
+        std::vector<int> truth[2];
+        for (int c = 0; c < 2; c++) {
+            std::vector<int> men;
+            for (int sq = 0; sq < 64; sq++) if (root[c].getPiece(Square(sq)) != Piece::EMPTY) men.push_back(root[c].getPiece(Square(sq)));
+            while (sample[c].size() < 150) {
+                Position q; bool clash = false; std::set<int> used;
+                for (int m : men) { int sq = rnd.nextInt(64); if (used.count(sq)) { clash = true; break; } used.insert(sq); q.setPiece(Square(sq), m); }
+                if (clash) continue;
+                q.setWhiteMove(rnd.nextInt(2) == 0);
+                if (BitBoard::getKingDistance(q.wKingSq(), q.bKingSq()) < 2) continue;
+                { Position t(q); t.setWhiteMove(!q.isWhiteMove()); if (MoveGen::inCheck(t)) continue; }
+                sample[c].push_back(q);
+            }
+            TranspositionTable ref(512);
+            ref.reSize(1 << 19);
+            RelaxedShared<S64> lim(-1);
+            if (!ref.updateTB(root[c], lim)) { fprintf(stderr, "reference table not built\n"); return 3; }
+            for (const Position& q : sample[c]) { int sc = 0; truth[c].push_back(ref.probeDTM(q, 0, sc) ? sc : 99999); }
+        }
+        long n = 0;
+        const U64 BIG = 1 << 19, SMALL = 1 << 18;      // 8 MB hosts a tablebase (>= 7 MB), 4 MB does not
+        for (int s = 0; s < nSeq; s++) {
+            bool big = rnd.nextInt(4) != 0;
+            os << "{\"e\":\"Reset\",\"big\":" << (big ? "true" : "false") << "}\n";
+            TranspositionTable tt(512);
+            tt.reSize(big ? BIG : SMALL);
+            RelaxedShared<S64> lim(-1);
+            limP = &lim;
+            bool idle = rnd.nextInt(3) == 0;
+            int len = 8 + rnd.nextInt(idle ? 24 : 10);
+            for (int i = 0; i < len; i++) {
+                int k = rnd.nextInt(16);
+                if (idle && rnd.nextInt(2) == 0) k = 0;         // histories in which unused tables grow old (dropped with the fifth idle root in a row)
+                const char* op; int c = -1; const char* t = "none"; bool ret = false; started = false; wantAbort = false;
+                if (k < 5) { op = "unsuit"; lim = -1; ret = tt.updateTB(unsuit, lim); }
+                else if (k < 11) {
+                    op = "suit"; c = rnd.nextInt(2);
+                    int tk = rnd.nextInt(5);
+                    if (tk == 0) { t = "short"; lim = 10; } else if (tk == 1) { t = "abort"; lim = -1; wantAbort = true; } else { t = "ok"; lim = -1; }
+                    ret = tt.updateTB(root[c], lim);
+                    wantAbort = false;
+                }
+                else if (k == 11) { op = "clear"; tt.clear(); }
+                else if (k == 12) { op = "resize"; big = rnd.nextInt(3) != 0; tt.reSize(big ? BIG : SMALL); }
+                else {
+                    op = "traffic";
+                    for (int j = 0; j < 400000; j++) {
+                        Move mv(Square(rnd.nextInt(64)), Square(rnd.nextInt(64)), 0);
+                        mv.setScore(rnd.nextInt(1000));
+                        U64 key = rnd.nextU64();
+                        tt.insert(key, mv, 1 + rnd.nextInt(3), 0, rnd.nextInt(50), 0);
+                        if ((j & 7) == 0) { TranspositionTable::TTEntry e; tt.probe(key, e); }
+                        if ((j & 0xffff) == 0) tt.nextGeneration();
+                    }
+                }
+                auto st = tt.verifState();
+                int ans[2] = {0, 0}, wrong[2] = {0, 0};
+                for (int cc = 0; cc < 2; cc++)
+                    for (size_t q = 0; q < sample[cc].size(); q++) {
+                        int sc = 0;
+                        if (tt.probeDTM(sample[cc][q], 0, sc)) { ans[cc]++; if (sc != truth[cc][q]) wrong[cc]++; }
+                    }
+                os << "{\"e\":\"Life\",\"op\":\"" << op << "\",\"c\":\"" << (c < 0 ? "none" : clsName[c]) << "\",\"t\":\"" << t << "\",\"big\":" << (big ? "true" : "false")
+                   << ",\"ret\":" << (ret ? "true" : "false") << ",\"started\":" << (started ? "true" : "false") << ",\"resident\":" << (st.tbResident ? "true" : "false")
+                   << ",\"reduced\":" << (st.usedSize < st.tableSize ? "true" : "false")
+                   << ",\"room\":" << (st.usedSize * 16 + 5 * 1024 * 1024 <= st.tableSize * 16 ? "true" : "false")
+                   << ",\"ansQ\":" << ans[0] << ",\"ansR\":" << ans[1] << ",\"wrongQ\":" << wrong[0] << ",\"wrongR\":" << wrong[1] << ",\"sample\":" << sample[0].size() << "}\n";
+                n++;
+            }
+        }
+        printf("{\"life_records\":%ld,\"life_histories\":%d}\n", n, nSeq);
         return 0;
     }
     return 2;
